@@ -278,6 +278,13 @@ pub fn exec(line: &str) -> String {
             }
             p_c09(k.parse().unwrap_or(1), &srcs)
         }
+        ["p_cycle", rest @ ..] => {
+            let mut srcs = Vec::new();
+            for h in rest {
+                srcs.push(text!(h));
+            }
+            p_cycle(&srcs)
+        }
         ["superset", a, h] => b(shape!(a).is_superset(&text!(h))),
         ["supersetchk", a, h] => match shape!(a).is_superset_checked(&text!(h)) {
             Ok(x) => format!("ok {}", b(x)),
@@ -703,6 +710,21 @@ fn p_c09(k: usize, srcs: &[String]) -> String {
     for s in shapes {
         out.push(' ');
         out.push_str(&sexp(&s).replace(' ', "_"));
+    }
+    out
+}
+
+/// size (length of the printed s-expression) of the shape of a group of documents fed 2, 4, 8 and 16 times
+/// in turn: "bounded by the variety of the sources, not by how often similar documents occur" (C09)
+fn p_cycle(srcs: &[String]) -> String {
+    let mut out = "ok".to_string();
+    for m in [2usize, 4, 8, 16] {
+        let mut h = Vec::new();
+        for _ in 0..m {
+            h.extend(srcs.iter().cloned());
+        }
+        let Ok(s) = JsonShape::from_sources(&h) else { return "skip".into() };
+        out.push_str(&format!(" {}", sexp(&s).len()));
     }
     out
 }
